@@ -114,6 +114,8 @@ class Model:
         return None if ref is None else self.fmt(*ref)
 
     def split(self, curie):
+        if not self.delimiter:
+            return None      # the empty delimiter occurs nowhere
         head, sep, tail = curie.partition(self.delimiter)
         if not sep:
             return None
